@@ -563,7 +563,7 @@ def alternate_rule(ctx, rule='C02.alternate'):
 def run(ctx, tier):
     results = []
     ob = commit.obligations(ctx)
-    results += ob['O1'] + ob['O2'] + ob['O3']
+    results += ob['O1'] + ob['O2'] + ob['O3'] + ob['O4']
     results += commit.complete_writes(ctx)
     results += creation_rules(ctx)
     results += cow_write_set(ctx)
